@@ -25,8 +25,22 @@ int main() {
   std::map<std::string, std::string> A = {{"m", "INCLUDE \"l\"\nn := 3;\nLOOP n DO\n  y := RUN f WITH y END\nEND;\nIF y = 3 THEN GOTO e;\nz := 7;\ne: z := z + 1\n"}, {"l", "PROGRAM f IN a DO\n  x0 := a + 1\nEND\n"}};
   std::map<std::string, std::string> B = {{"m", "DEFINE TWICE <ID> AS $0 := $0 + 1; #0 := $0; $0 := #0 + 1 END DEFINE\nx := 5;\nTWICE x;\nWHILE x != 0 DO x := x - 2 END\n"}};
   std::map<std::string, std::string> C = {{"m", "x := ; LOOP DO"}};
+  // same macro pattern, different body / priority / definition line in two compilations
+  std::map<std::string, std::string> D1 = {{"m", "DEFINE BUMP <ID> AS $0 := $0 + 1 END DEFINE\nx0 := 5;\nBUMP x0\n"}};
+  std::map<std::string, std::string> D2 = {{"m", "\n\nDEFINE PRIO 7 BUMP <ID> AS $0 := $0 + 2 END DEFINE\nx0 := 5;\nBUMP x0\n"}};
   std::string a0 = render(A, "m"), b0 = render(B, "m"), c0 = render(C, "m"), d0 = render(A, "absent");
   int bad = 0;
+  { std::string e1 = render(D1, "m"), e2 = render(D2, "m"); if (render(D1, "m") != e1) bad++; if (render(D2, "m") != e2) bad++; if (e1 == e2) bad++; }
+  // a copied VM is an independent machine: resetting the copy must not disarm the original's breakpoint
+  { Theo::CodegenResult r = Theo::compile(A, "m");
+    if (r.generated_correctly) {
+      auto locs = r.code.getAvailableBreakpoints();
+      Theo::BreakPoint bp = *locs.begin();
+      Theo::VM a(r.code), ctl(r.code); a.setBreakPoint(bp.file, bp.line, true); ctl.setBreakPoint(bp.file, bp.line, true);
+      Theo::VM b = a; b.reset(); b.clearBreakpoints();
+      a.execute(); ctl.execute();
+      if (a.getCurrentBreak().line != ctl.getCurrentBreak().line || a.isDone() != ctl.isDone()) bad++;
+    } else bad++; }
   for (int k = 0; k < 3; k++) { if (render(B, "m") != b0) bad++; if (render(C, "m") != c0) bad++; if (render(A, "m") != a0) bad++; if (render(A, "absent") != d0) bad++; }
   std::string ta, tb, tc, td;
   std::thread t1([&] { for (int k = 0; k < 3; k++) { ta = render(A, "m"); tc = render(C, "m"); } });
